@@ -175,6 +175,41 @@ def check_free(spec, ctx):
 
 
 @st.composite
+def ulp_boundary_case(draw):
+    """Intersection lengths within a few ulps of the threshold at large coordinates (long deployments, MHz frequencies), arranged so
+    that binary64 computes the intersection length EXACTLY (stop and start within a factor of two: Sterbenz), i.e. any remaining
+    error would be the implementation's own (e.g. comparing stop with start + threshold instead)."""
+    t = draw(st.one_of(st.floats(2.0, 5e6, allow_nan=False), st.sampled_from([86400.0, 250000.3, 1e5 + 0.1, 4999990.7, 3600.1])))
+    thr = draw(st.one_of(st.sampled_from([0.1, 0.3, 1e-3, 0.7, 0.05, 0.0]), st.floats(1e-6, 1.0, allow_nan=False)))
+    stop = t + thr
+    for _ in range(abs(k := draw(st.integers(-3, 3)))):
+        stop = math.nextafter(stop, math.inf if k > 0 else -math.inf)
+    a0 = min(t - draw(st.sampled_from([0.0, 0.5, 1.0])), stop)
+    d = max(stop + draw(st.sampled_from([0.0, 0.25, 10.0])), t)
+    i1, i2 = [a0, stop], [t, d]
+    if draw(st.booleans()):
+        i1, i2 = i2, i1
+    return {"i1": i1, "i2": i2, "mode": "abs" if (thr > 0 or draw(st.booleans())) else "none", "thr": thr, "k": k}
+
+
+def check_ulp(spec, ctx):
+    f = _mod().intervals_overlap
+    i1, i2, mode, thr = spec["i1"], spec["i2"], spec["mode"], spec["thr"]
+    if mode not in ("abs", "none") or (mode == "none" and thr != 0) or not all(0 <= x <= 1e7 for x in i1 + i2) or i1[0] > i1[1] or i2[0] > i2[1]:
+        raise ValueError("malformed spec")
+    lo, hi = max(i1[0], i2[0]), min(i1[1], i2[1])
+    if not (hi / 2 <= lo <= 2 * hi):
+        raise ValueError("malformed spec: the float difference would not be exact")
+    exp, margin = exact_overlap(i1, i2, absolute=thr)
+    got = _call(f, i1, i2, mode, thr)
+    ctx.case(spec, nontrivial=abs(margin) <= 4 * math.ulp(hi), labels=[f"k={spec.get('k')}", f"mode={mode}", f"exp={exp}"], out={"got": bool(got)})
+    if bool(got) != exp:
+        ctx.fail(f"intervals_overlap{tuple(i1), tuple(i2)} mode={mode} thr={thr}: got {got}, the intersection length {hi!r} - {lo!r} is exact in binary64 and {'>=' if exp else '<'} the threshold (margin {float(margin):.3g})", spec, got, exp, kind="value")
+    if bool(_call(f, i2, i1, mode, thr)) != bool(got):
+        ctx.fail("intervals_overlap not symmetric", spec, None, None, kind="symmetry")
+
+
+@st.composite
 def error_case(draw):
     a, b = sorted([draw(st.integers(0, 64)), draw(st.integers(0, 64))])
     c, d = sorted([draw(st.integers(0, 64)), draw(st.integers(0, 64))])
@@ -365,6 +400,7 @@ def check_clip(spec, ctx):
 SUBS = [
     Sub("intervals_grid", check_grid, strategy=grid_interval_case, quick=60000, thorough=500000, min_nontrivial=0.2),
     Sub("intervals_free", check_free, strategy=free_interval_case, quick=40000, thorough=300000, min_nontrivial=0.02),
+    Sub("intervals_ulp_boundary", check_ulp, strategy=ulp_boundary_case, quick=12000, thorough=150000, min_nontrivial=0.5),
     Sub("threshold_errors", check_errors, strategy=error_case, quick=4000, thorough=40000),
     Sub("geometry_overlap", check_geoms, strategy=geom_pair_case, quick=12000, thorough=150000, min_nontrivial=0.05),
     Sub("is_in_clip", check_clip, strategy=clip_case, quick=16000, thorough=200000, min_nontrivial=0.1),
